@@ -20,6 +20,10 @@ POISON = {
     'oc_tokens.c': b'void f(void)\n{\n   id a = @[ @1, @2 ];\n   SEL s = @selector(foo:);\n}\n',
     'oc_msg.m': b'@implementation A\n- (void) f {\n  [self foo:1 bar:2];\n}\n@end\n',
     'qt.cpp': b'void f()\n{\n   connect(a, SIGNAL(x(int , int)), b, SLOT(y( int,int )));\n}\n',
+    # files whose extension names no language (C by default): the language must not be inherited from the file before
+    'table.def': b'static int lookup(struct entry *e, int key)\n{\n   int in=e -> first;\n   int r=(key<in)?e -> lo:e -> hi;\n   return r+in;\n}\n',
+    'tmpl.tcc': b'template<class T> class V { T *p; public: T&at(int i){return p [i];} };\nint g(int a){return a >>> 2;}\n',
+    'noext': b'int main(void){int is=1;int as=2;return is+as;}\n',
     'qt_multi.cpp': b'void Test::init()\n{\n\tconnect( m_ppcCom,\n\t         SIGNAL(sigReceivedBundle(QString)),\n\t         SLOT(doProcessBundle(QString)) );\n\tconnect( m_ppcCom,\n\t         SIGNAL(sigReceivedBundle),\n\t         SLOT(doProcessBundle));\n}\n',
     'qt_victim.cpp': b'void g()\n{\n\tcall( a , b );\n\tconnect( x,\n\t         SIGNAL(s(int)),\n\t         SLOT(t(int)) );\n}\n',
     'includes.cpp': b'#include "z.h"\n#include "a.h"\n#include <m.h>\nint x;\n',
